@@ -43,7 +43,7 @@ FILES = {
  "C17": "Models/Dispatch.v, ConnTable.v, Proofs/DispatchProofs.v, ConnTableProofs.v; harness props/c17.go",
  "C18": "Models/FirstEvent.v, Gen/EventTable.v (T4), Proofs/FirstEventProofs.v; harness props/c18.go, doubles/ethnode.go",
  "C19": "Models/Abi.v, Adaptor.v, AdaptorGas.v, Proofs/AbiProofs.v, AdaptorProofs.v, AdaptorGasProofs.v; harness props/c19.go, doubles/ethnode.go",
- "C20": "Models/Schnorr.v, ScLimbs.v, Ed.v, EdCodec.v, Gen/Ref10Sc.v (T2), Gen/EdConsts.v (T5), Proofs/SchnorrProofs.v, EdProofs.v, EdCodecProofs.v, EdCodecInstance.v, ScLimbsProofs.v, ScInstances.v, ScOverflow.v; harness props/c20.go",
+ "C20": "Models/Schnorr.v, ScLimbs.v, Ed.v, EdCodec.v, Gen/Ref10Sc.v (T2), Gen/EdConsts.v (T5), Proofs/SchnorrProofs.v, EdProofs.v, EdDigits.v, EdCodecProofs.v, EdCodecInstance.v, ScLimbsProofs.v, ScInstances.v, ScOverflow.v; harness props/c20.go",
 }
 
 FRAME_HEAD = open(os.path.join(ROOT, "tools", "design_head.md")).read()
